@@ -128,7 +128,8 @@ Definition base_read (content : list Z) (s : vstate) (n : Z) : res (list Z) * vs
   let b := slice content p (p + n) in
   (Ok b, SBase (p + zlen b)).
 
-Definition clamp_pos (size np : Z) : Z := if np >? size then size else if np <? 0 then 0 else np.
+(** the upper clamp applies only to a positive size: a size <= 0 means "not clipped", in seek as in read (fix of the size-0 hang) *)
+Definition clamp_pos (size np : Z) : Z := if (0 <? size) && (np >? size) then size else if np <? 0 then 0 else np.
 
 (** seek(offset, whence) of a view / of the base *)
 Fixpoint v_seek (v : view) (s : vstate) (off whence : Z) : res Z * vstate :=
